@@ -29,6 +29,10 @@ type Mast struct {
 	debug                          bool
 	nodeCache                      NodeCache
 	nodeFormat                     nodeFormat
+	// emptied records that the last entry was deleted since the tree was
+	// loaded or last persisted: the root is nil then, so there is no node
+	// left whose dirty flag could say so.
+	emptied bool
 }
 
 type mastNode struct {
@@ -71,6 +75,7 @@ func (m *Mast) savePathForRoot(ctx context.Context, path []pathEntry) error {
 		m.root = path[0].node
 	} else {
 		m.root = nil
+		m.emptied = true
 	}
 	return nil
 }
@@ -429,6 +434,7 @@ func (m *Mast) shrink(ctx context.Context) error {
 		m.root = newLink
 	} else {
 		m.root = nil
+		m.emptied = true
 	}
 	m.height--
 	if m.debug {
